@@ -665,6 +665,10 @@ func (r *replicateChannelManager) StopReadCollection(ctx context.Context, info *
 
 func (r *replicateChannelManager) GetChannelChan() <-chan string {
 	for {
+		if r.replicateCtx != nil && r.replicateCtx.Err() != nil {
+			// a stopped manager must not pick up (and drain) the channel announcements of its successor on the same target
+			return nil
+		}
 		c := GetTSManager().GetTargetChannelChan(r.replicateID)
 		if c != nil {
 			return c
